@@ -54,7 +54,9 @@ def stretches(tier):
 
 
 def rots(seed):
-    return [np.eye(3), O.rotation_from_axis_angle((0, 0, 1), 90)] + O.generic_rotations(seed)[:4]
+    # ... the last three: half turns about x, y, z - for the axial stretches R.S is then a symmetric but indefinite matrix
+    return [np.eye(3), O.rotation_from_axis_angle((0, 0, 1), 90)] + O.generic_rotations(seed)[:4] + [np.diag([1.0, -1.0, -1.0]), np.diag([-1.0, 1.0, -1.0]),
+                                                                                                     np.diag([-1.0, -1.0, 1.0])]
 
 
 def seed_of():
